@@ -47,7 +47,7 @@ def written_files(run, tier):
 def written_2d(run, tier):
     import segyio
     d = env.subdir('c02w2')
-    combos = [((9, 70), 8, (1, 4, 1024)), ((21, 300), 8, (1, 16, 256))]
+    combos = [((9, 600), 16, (1, 4, 512)), ((21, 300), 8, (1, 16, 256)), ((9, 70), 8, (1, 4, 1024))]     # first: b1 = 4 with two z-blocks
     if tier == 'thorough':
         combos += [((19, 40), 16, (1, 16, 128)), ((5, 2100), 4, (1, 4, 2048)), ((40, 70), 32, (1, 32, 32)), ((9, 9), 32, (1, 4, 256)),
                    ((70, 9), 16, (1, 64, 32)), ((6, 600), 2, (1, 16, 1024))]
